@@ -57,7 +57,7 @@ static const char *probe_names[PR_MAX] = {
 	"thread_exit_nodeinit", "sig_cb", "sig_during_handler", "sig_handoff", "wait_cb",
 	"pid_reused", "kill_dead", "work_run", "work_done", "pool_put_busy", "idle_timeout",
 	"pump_bytes", "pump_full", "pump_eof", "inot_cb", "inot_multi", "popen_kill",
-	"reg_failed_event", "timer_many", "radix_cross", "sig_nowalk", "sig_foreign_thread", "reg_failed_ext", "timer_parked", "reenter_after_quit", "pump_kick", "work_depends", "task_foreign_init",
+	"reg_failed_event", "timer_many", "radix_cross", "sig_nowalk", "sig_foreign_thread", "reg_failed_ext", "timer_parked", "reenter_after_quit", "pump_kick", "work_depends", "task_foreign_init", "inot_flood",
 };
 
 extern int __llvm_profile_write_file(void) __attribute__((weak));
